@@ -251,8 +251,14 @@ fn small() -> usize {
     v as usize
 }
 
-fn any_geo() -> Geo {
-    let g = Geo { bw: small(), bh: small(), nw: small(), nh: small(), bx: small(), by: small(), nx: small(), ny: small(), w: small(), h: small() };
+/// `rect`: Some((w, h)) fixes the size of the blended rectangle (the kernel's loops then have concrete trip
+/// counts, which is what lets CBMC match the float operations one to one); None leaves it symbolic.
+fn any_geo(rect: Option<(usize, usize)>) -> Geo {
+    let (w, h) = match rect {
+        Some(r) => r,
+        None => (small(), small()),
+    };
+    let g = Geo { bw: small(), bh: small(), nw: small(), nh: small(), bx: small(), by: small(), nx: small(), ny: small(), w, h };
     kani::assume(1 <= g.bw && 1 <= g.bh && 1 <= g.nw && 1 <= g.nh);
     kani::assume(g.bx + g.w <= g.bw && g.by + g.h <= g.bh && g.nx + g.w <= g.nw && g.ny + g.h <= g.nh);
     g
@@ -270,20 +276,32 @@ fn arbitrary_no_alpha<'a>() -> BlendAlpha<'a> {
 /// Runs blend_single for the abstract operation `b` (realised as the BlendMode `blend()`/`patch()` would build)
 /// and checks the pixel contract for one symbolic buffer position, i.e. for all positions.
 /// `degenerate`: realise Replace / Add through the no-alpha forms Blend{new: None} / MulAdd{new: None}.
-fn kernel_contract(b: SpecChannelBlend, degenerate: bool) {
-    kernel_contract_v(b, degenerate, 0)
+fn kernel_contract(b: SpecChannelBlend, degenerate: bool, rect: Option<(usize, usize)>) {
+    kernel_contract_geo(b, degenerate, any_geo(rect), None, None, false)
 }
-fn kernel_contract_v(b: SpecChannelBlend, degenerate: bool, variant: u32) {
-    let g = any_geo();
-    if variant & 1 != 0 { kani::assume(g.bw == 2 && g.bh == 2 && g.nw == 2 && g.nh == 2); }
-    if variant & 2 != 0 { kani::assume(g.w == 1 && g.h == 1); }
-    if variant & 4 != 0 { kani::assume(g.w == 2 && g.h == 2); }
+
+/// `at`: Some(position) checks that concrete buffer position, None one symbolic position.
+/// `have_old`: Some(flag) fixes whether the canvas has an alpha plane, None leaves it symbolic.
+/// `small_values`: restrict every sample to {0,1,2,3} and every alpha to {0, 0.5, 1, 1.5} (geometry obligations).
+fn kernel_contract_geo(b: SpecChannelBlend, degenerate: bool, g: Geo, at: Option<(usize, usize)>, have_old: Option<bool>, small_values: bool) {
     let mut base = any_finite4();
     let new = any_finite4();
     let base_alpha = any_finite4();
     let new_alpha = any_finite4();
+    if small_values {
+        let mut i = 0;
+        while i < 4 {
+            let ok = |v: f32| v == 0.0 || v == 1.0 || v == 2.0 || v == 3.0;
+            let ok_a = |v: f32| v == 0.0 || v == 0.5 || v == 1.0 || v == 1.5;
+            kani::assume(ok(base[i]) && ok(new[i]) && ok_a(base_alpha[i]) && ok_a(new_alpha[i]));
+            i += 1;
+        }
+    }
     let old = base;
-    let have_old_plane: bool = kani::any();
+    let have_old_plane: bool = match have_old {
+        Some(f) => f,
+        None => kani::any(),
+    };
     kani::assume(b.uses_alpha || !have_old_plane);
 
     let old_plane = have_old_plane.then(|| SharedSubgrid::from_buf(&base_alpha[..], g.bw, g.bh, STRIDE));
@@ -307,7 +325,10 @@ fn kernel_contract_v(b: SpecChannelBlend, degenerate: bool, variant: u32) {
     );
 
     // one symbolic position of the base BUFFER (stride padding included)
-    let (px, py) = (small(), small());
+    let (px, py) = match at {
+        Some(p) => p,
+        None => (small(), small()),
+    };
     kani::assume(px < STRIDE && py < 2);
     let at = py * STRIDE + px;
     let inside = g.bx <= px && px < g.bx + g.w && g.by <= py && py < g.by + g.h;
@@ -320,9 +341,8 @@ fn kernel_contract_v(b: SpecChannelBlend, degenerate: bool, variant: u32) {
     } else {
         assert!(base[at].to_bits() == old[at].to_bits(), "[C05] samples outside the blended rectangle (and stride padding) are unchanged");
     }
-    if variant & 8 != 0 { return; }
-    kani::cover!(inside && g.w == 1 && g.bx == 1 && g.nx == 0 && g.by == 0 && g.ny == 1 && g.h == 1 && have_old_plane == b.uses_alpha);
-    kani::cover!(!inside && g.w == 2 && g.h == 1 && py < g.bh);
+    kani::cover!(inside && g.bx + g.w == 2 && g.nx == 0 && g.by == 0 && g.ny + g.h == 2 && have_old_plane == b.uses_alpha);
+    kani::cover!(!inside && py < g.bh);
 }
 
 /// The standard's real-number formulas at the points where binary32 evaluation is exact (no rounding, no overflow):
@@ -380,69 +400,76 @@ fn any_blend(op: SpecOp) -> SpecChannelBlend {
     }
 }
 
+// Loop-structure kernels (no arithmetic): rectangle size symbolic.
 #[kani::proof]
 #[kani::unwind(4)]
 fn kernel_replace_contract() {
-    kernel_contract(any_blend(SpecOp::Replace), false);
+    kernel_contract(any_blend(SpecOp::Replace), false, None);
 }
 
 /// kBlend on an image without alpha (Blend { new: None }, any flags) is kReplace
 #[kani::proof]
 #[kani::unwind(4)]
 fn kernel_blend_no_alpha_contract() {
-    kernel_contract(any_blend(SpecOp::Replace), true);
-}
-
-#[kani::proof]
-#[kani::unwind(4)]
-fn kernel_add_contract() {
-    kernel_contract(any_blend(SpecOp::Add), false);
-}
-
-/// kMulAdd on an image without alpha (MulAdd { new: None }, any flags) is kAdd
-#[kani::proof]
-#[kani::unwind(4)]
-fn kernel_muladd_no_alpha_contract() {
-    kernel_contract(any_blend(SpecOp::Add), true);
+    kernel_contract(any_blend(SpecOp::Replace), true, None);
 }
 
 #[kani::proof]
 #[kani::unwind(4)]
 fn kernel_skip_contract() {
-    kernel_contract(any_blend(SpecOp::Keep), false);
+    kernel_contract(any_blend(SpecOp::Keep), false, None);
 }
 
-#[kani::proof]
-#[kani::unwind(4)]
-fn kernel_mul_contract() {
-    kernel_contract(any_blend(SpecOp::Mul), false);
+// Arithmetic kernels: one harness per rectangle size (0 x *, * x 0 are covered by the 0x0 instance with symbolic other
+// side: nothing may change), offsets and grid sizes symbolic.
+fn blend_of(op: SpecOp, premultiplied: bool) -> SpecChannelBlend {
+    let mut b = any_blend(op);
+    if op == SpecOp::Blend {
+        b.premultiplied = premultiplied;
+    }
+    b
 }
 
-#[kani::proof]
-#[kani::unwind(4)]
-fn kernel_mix_alpha_contract() {
-    kernel_contract(any_blend(SpecOp::BlendAlpha), false);
+macro_rules! arithmetic_kernel_harnesses {
+    ($($op:expr, $premul:literal, $degenerate:literal => $h00:ident, $h11:ident, $h21:ident, $h12:ident, $h22:ident;)*) => {
+        $(
+            #[kani::proof] #[kani::unwind(4)] fn $h00() {
+                // empty rectangle: width 0 or height 0, the other side symbolic
+                let other = small();
+                kernel_contract(blend_of($op, $premul), $degenerate, Some(if kani::any() { (0, other) } else { (other, 0) }));
+            }
+            #[kani::proof] #[kani::unwind(4)] fn $h11() { kernel_contract(blend_of($op, $premul), $degenerate, Some((1, 1))); }
+            #[kani::proof] #[kani::unwind(4)] fn $h21() { kernel_contract(blend_of($op, $premul), $degenerate, Some((2, 1))); }
+            #[kani::proof] #[kani::unwind(4)] fn $h12() { kernel_contract(blend_of($op, $premul), $degenerate, Some((1, 2))); }
+            #[kani::proof] #[kani::unwind(4)] fn $h22() { kernel_contract(blend_of($op, $premul), $degenerate, Some((2, 2))); }
+        )*
+    };
 }
 
-#[kani::proof]
-#[kani::unwind(4)]
-fn kernel_muladd_contract() {
-    kernel_contract(any_blend(SpecOp::MulAdd), false);
+arithmetic_kernel_harnesses! {
+    SpecOp::Add, false, false => kernel_add_0, kernel_add_1x1, kernel_add_2x1, kernel_add_1x2, kernel_add_2x2;
+    SpecOp::Add, false, true => kernel_muladd_no_alpha_0, kernel_muladd_no_alpha_1x1, kernel_muladd_no_alpha_2x1, kernel_muladd_no_alpha_1x2, kernel_muladd_no_alpha_2x2;
+    SpecOp::Mul, false, false => kernel_mul_0, kernel_mul_1x1, kernel_mul_2x1, kernel_mul_1x2, kernel_mul_2x2;
+    SpecOp::BlendAlpha, false, false => kernel_mix_alpha_0, kernel_mix_alpha_1x1, kernel_mix_alpha_2x1, kernel_mix_alpha_1x2, kernel_mix_alpha_2x2;
+    SpecOp::MulAdd, false, false => kernel_muladd_0, kernel_muladd_1x1, kernel_muladd_2x1, kernel_muladd_1x2, kernel_muladd_2x2;
+    SpecOp::Blend, true, false => kernel_blend_premultiplied_0, kernel_blend_premultiplied_1x1, kernel_blend_premultiplied_2x1, kernel_blend_premultiplied_1x2, kernel_blend_premultiplied_2x2;
+    SpecOp::Blend, false, false => kernel_blend_straight_0, kernel_blend_straight_1x1, kernel_blend_straight_2x1, kernel_blend_straight_1x2, kernel_blend_straight_2x2;
 }
 
-#[kani::proof]
-#[kani::unwind(4)]
-fn kernel_blend_premultiplied_contract() {
-    let mut b = any_blend(SpecOp::Blend);
-    b.premultiplied = true;
-    kernel_contract(b, false);
-}
 
-#[kani::proof]
-#[kani::unwind(4)]
-fn kernel_blend_straight_contract() {
-    let mut b = any_blend(SpecOp::Blend);
-    b.premultiplied = false;
-    kernel_contract(b, false);
+#[kani::proof] #[kani::unwind(6)] fn dev_d1() {
+    let g = Geo { bw: 2, bh: 2, nw: 2, nh: 2, bx: 1, by: 0, nx: 0, ny: 1, w: 1, h: 1 };
+    let b = SpecChannelBlend { op: SpecOp::Blend, clamp: true, swapped: false, premultiplied: false, uses_alpha: true };
+    kernel_contract_geo(b, false, g, Some((1, 0)), Some(true), false);
 }
-
+#[kani::proof] #[kani::unwind(6)] fn dev_d2() {
+    let g = Geo { bw: 2, bh: 2, nw: 2, nh: 2, bx: 0, by: 0, nx: 0, ny: 0, w: 2, h: 2 };
+    let b = SpecChannelBlend { op: SpecOp::Mul, clamp: true, swapped: false, premultiplied: false, uses_alpha: false };
+    kernel_contract_geo(b, false, g, Some((1, 1)), Some(false), false);
+}
+#[kani::proof] #[kani::unwind(6)] fn dev_d3() {
+    kernel_contract_geo(blend_of(SpecOp::Blend, false), false, any_geo(None), None, None, true);
+}
+#[kani::proof] #[kani::unwind(6)] fn dev_d4() {
+    kernel_contract_geo(blend_of(SpecOp::Mul, false), false, any_geo(None), None, None, true);
+}
